@@ -328,6 +328,9 @@ func scenario(e *simcore.Env, tp *simcore.Tape, g engine) {
 	g.install(repo)
 	flushSec := []int{1, 3, 10}[tp.Choose(3)]
 	flags := g.flags(flushSec, tp.Range(2, 6))
+	if tp.Bool(1, 2) { // merge eagerly: parts of any size ratio
+		flags = append(flags, "--"+g.kind()+"-min-merge-multiplier=1")
+	}
 	flushed := time.Duration(2*flushSec+1) * time.Second
 	dirA := filepath.Join(e.Dir, "a")
 	dirR := filepath.Join(e.Dir, "r")
@@ -605,23 +608,32 @@ func scenario(e *simcore.Env, tp *simcore.Tape, g engine) {
 	faultK := tp.Range(0, 15)
 	var snapRunning, faultFired atomic.Bool
 	var faultPath atomic.Value
-	if faultKind != 0 {
-		cnt := 0
-		simos.SetFailer(func(_ int, op *simos.Op) error {
-			if !snapRunning.Load() || faultFired.Load() || !strings.HasPrefix(op.Path, snapshotsRel) {
-				return nil
-			}
-			if (faultKind == 1 && op.Kind == simos.OpLink) || (faultKind == 2 && op.Kind == simos.OpMkdirAll) {
-				if cnt == faultK {
-					faultFired.Store(true)
-					faultPath.Store(op.Kind.String() + " " + pathRole(op.Path))
-					return simos.ErrIO
-				}
-				cnt++
-			}
+	var depthFixed atomic.Bool
+	cnt := 0
+	simos.SetFailer(func(_ int, op *simos.Op) error {
+		if !snapRunning.Load() || !strings.HasPrefix(op.Path, snapshotsRel) {
 			return nil
-		})
-	}
+		}
+		// Only the request writes below the snapshots directory, so this runs on its goroutine. The listener holds
+		// its snapshotMux for the whole call; gaterw's held-lock counter (mode A) would let every gate below it
+		// pass. The mutex serialises snapshot requests only (one per run here): forget it from the first disk
+		// operation of the request on, so that the request parks at the gates inside the segments and tables.
+		if depthFixed.CompareAndSwap(false, true) {
+			simcore.LockDepth(-1)
+		}
+		if faultKind == 0 || faultFired.Load() {
+			return nil
+		}
+		if (faultKind == 1 && op.Kind == simos.OpLink) || (faultKind == 2 && op.Kind == simos.OpMkdirAll) {
+			if cnt == faultK {
+				faultFired.Store(true)
+				faultPath.Store(op.Kind.String() + " " + pathRole(op.Path))
+				return simos.ErrIO
+			}
+			cnt++
+		}
+		return nil
+	})
 
 	res := &snapResult{}
 	snapCh := make(chan struct{})
@@ -756,6 +768,9 @@ func scenario(e *simcore.Env, tp *simcore.Tape, g engine) {
 		if advLeft > 0 {
 			optAdv = nOpt
 			nOpt++
+			if snapStarted { // maintenance in the middle of the request is what the race is about: three tickets
+				nOpt += 2
+			}
 		}
 		if nOpt == 0 {
 			e.Fail("harness", "race-stuck", "snapshot call neither finished nor parked and nothing left to do (in flight writers: %d)", inFlight())
@@ -816,14 +831,31 @@ func scenario(e *simcore.Env, tp *simcore.Tape, g engine) {
 				}()
 				w.done <- send(n)
 			}()
-		case c == optAdv:
+		case optAdv >= 0 && c >= optAdv:
 			advLeft--
 			d := []time.Duration{time.Duration(flushSec) * time.Second, flushed, 500 * time.Millisecond, 11 * time.Minute}[tp.Choose(4)]
+			var pb map[string][]string
 			if snapStarted {
 				interference = true
+				for _, p := range parked {
+					if p.Actor == "snap" && (strings.HasPrefix(p.Site, "snapshot.go:TakeFileSnapshot#") || strings.HasPrefix(p.Site, "snapshot.go:createMetadata#") || strings.HasPrefix(p.Site, "snapshot.go:decRef#")) {
+						e.Probe("reach.advance_while_request_links_a_table")
+					}
+				}
+				pb = partsOnDisk(filepath.Join(dirA, g.kind(), storage.DataDir))
 			}
 			time.Sleep(d)
 			e.AddSim(d)
+			if snapStarted {
+				synctest.Wait()
+				fl, mg := maintenanceSeen(pb, partsOnDisk(filepath.Join(dirA, g.kind(), storage.DataDir)))
+				if fl {
+					e.Probe("reach.flush_during_snapshot_request")
+				}
+				if mg {
+					e.Probe("reach.merge_during_snapshot_request")
+				}
+			}
 			e.Event("step %d: advance %s", step, d)
 			sample = append(sample, "race: advance "+d.String())
 		default:
@@ -1144,6 +1176,47 @@ func scenario(e *simcore.Env, tp *simcore.Tape, g engine) {
 	e.Nontrivial()
 	e.SetSample(map[string]any{"engine": g.kind(), "flags": flags, "gates_pct": pct, "restore": map[bool]string{true: "backup+restore", false: "copy"}[viaTool],
 		"units": len(units), "units_in_snapshot": nPresent, "idle_closed_segments": len(closedBefore), "raced_writer": racedWriter, "raced_maintenance": racedMaint, "ops": sample})
+}
+
+// partsOnDisk lists the part directories per shard directory (model-free observation of maintenance, as in C03).
+func partsOnDisk(root string) map[string][]string {
+	out := map[string][]string{}
+	_ = filepath.WalkDir(root, func(p string, d os.DirEntry, err error) error {
+		if err != nil || !d.IsDir() {
+			return nil
+		}
+		if partDirRe.MatchString(d.Name()) && shardRe.MatchString(filepath.Base(filepath.Dir(p))) {
+			out[filepath.Dir(p)] = append(out[filepath.Dir(p)], d.Name())
+			return filepath.SkipDir
+		}
+		return nil
+	})
+	return out
+}
+
+func maintenanceSeen(before, after map[string][]string) (flush, merge bool) {
+	for shard, parts := range after {
+		old := map[string]bool{}
+		for _, p := range before[shard] {
+			old[p] = true
+		}
+		added, kept := 0, 0
+		for _, p := range parts {
+			if old[p] {
+				kept++
+			} else {
+				added++
+			}
+		}
+		removed := len(before[shard]) - kept
+		switch {
+		case removed >= 2 && added >= 1:
+			merge = true
+		case added > 0 && removed == 0:
+			flush = true
+		}
+	}
+	return flush, merge
 }
 
 func countPost(us []*unit) int {
